@@ -1,28 +1,34 @@
 #!/bin/bash
-# usage: matrix.sh  — run every check against every incoming seed in scratch worktrees; writes seeded/matrix.tsv
-cd /verif
-mkdir -p /tmp/mx
+# usage: matrix.sh [out.tsv] — run every check against every incoming seed in scratch worktrees; writes seeded/matrix.tsv
+# (runs from whatever copy of /verif it lives in, so it can be started with `vp run` from a snapshot)
+ROOT=$(cd "$(dirname "$0")/.." && pwd)
+cd $ROOT
+OUT=${1:-$ROOT/seeded/matrix.tsv}
+MX=/tmp/mx$$
+mkdir -p $MX
+[ -x engine/egfacts/target/release/egfacts ] || (cd engine/egfacts && CARGO_NET_OFFLINE=true cargo +nightly build --release --offline >/dev/null 2>&1)
 IDS=$(python3 -c "import json;print(' '.join(c['property_id'] for c in json.load(open('MANIFEST.json'))['checks']))")
-ls -d seeded/_incoming/*/[AB] | awk '{print NR%4, $0}' > /tmp/mx/jobs.txt
-: > /tmp/mx/result.tsv
-for w in 0 1 2 3; do
- ( grep "^$w " /tmp/mx/jobs.txt | while read _ job; do
+ls -d seeded/_incoming/*/[A-Z] | awk '{print NR%5, $0}' > $MX/jobs.txt
+: > $MX/result.tsv
+for w in 0 1 2 3 4; do
+ ( grep "^$w " $MX/jobs.txt | while read _ job; do
      id=$(basename $(dirname $job)); v=$(basename $job)
-     WT=/tmp/mx/wt$w; rm -rf $WT; git -C /repo worktree prune; git -C /repo worktree add --detach $WT HEAD >/dev/null 2>&1
+     WT=$MX/wt$w; rm -rf $WT; git -C /repo worktree prune; git -C /repo worktree add --detach $WT HEAD >/dev/null 2>&1
      cp /repo/Cargo.lock $WT/ 2>/dev/null
      P=$job/patch.diff; [ -f $job/patch.rebased.diff ] && P=$job/patch.rebased.diff
-     ( cd $WT && (git apply /verif/$P 2>/dev/null || git apply --3way /verif/$P >/dev/null 2>&1) ) || { echo -e "$id\t$v\tPATCH-FAILED" >> /tmp/mx/result.tsv; continue; }
+     ( cd $WT && (git apply $ROOT/$P 2>/dev/null || git apply --3way $ROOT/$P >/dev/null 2>&1) ) || { echo -e "$id\t$v\tPATCH-FAILED" >> $MX/result.tsv; continue; }
      for c in $IDS; do
-        out=$(EG_REPO=$WT VERIF_EVIDENCE_DIR=/tmp/mx/ev$w ./check $c 2>&1); rc=$?
+        out=$(EG_REPO=$WT VERIF_EVIDENCE_DIR=$MX/ev$w ./check $c 2>&1); rc=$?
         if [ $rc -ne 0 ]; then
            keys=$(echo "$out" | grep "^rule=" | sed 's/^rule=\([^ ]*\) key=\([^ ]*\).*/\2/' | cut -c1-90 | head -3 | tr '\n' ' ')
-           echo -e "$id\t$v\t$c\t$keys" >> /tmp/mx/result.tsv
+           echo -e "$id\t$v\t$c\t$keys" >> $MX/result.tsv
         fi
      done
-     echo -e "$id\t$v\tDONE" >> /tmp/mx/result.tsv
+     echo -e "$id\t$v\tDONE" >> $MX/result.tsv
      git -C /repo worktree remove --force $WT
    done ) &
 done
 wait
-sort /tmp/mx/result.tsv > /verif/seeded/matrix.tsv
-rm -rf /tmp/mx
+sort $MX/result.tsv > $OUT
+rm -rf $MX
+git -C /repo worktree prune
